@@ -184,6 +184,16 @@ func (m *mon) onOffer(c, kind, v, comp string, now time.Time) {
 		}
 		m.viol(comp, "declined-not-reoffered", "offer-to-"+who, v, "%s was declined by %s and is offered again to %s", v, by, c)
 	}
+	if b, ok := m.get(m.bound, c, kind); ok && !now.Before(b.exp) {
+		// c's binding has lapsed and the server answers it with an offer: the binding is over. If the same value
+		// is offered again it is now in the offered state (whose length the property does not bound); any other
+		// value leaves the lapsed one to become available again.
+		if b.v == v {
+			m.del(m.bound, c, kind)
+		} else {
+			m.lapse(c, kind, now)
+		}
+	}
 	if hv, ok := m.heldUnexpired(c, kind, now); ok && hv == v {
 		// an offer of the address the client is bound to adds nothing to that binding: the reservation
 		// is the binding itself and ends with it (an OFFER does not extend a lease)
@@ -218,7 +228,7 @@ func (m *mon) onAck(c, kind, v, comp string, life time.Duration, now time.Time) 
 		m.viol(comp, "declined-not-reoffered", "ack-to-"+who, v, "%s was declined by %s and is acknowledged to %s", v, by, c)
 	}
 	if hv, ok := m.heldUnexpired(c, kind, now); ok && hv != v {
-		m.viol(comp, "renew-same-value", "ack-different-value", v, "%s holds unexpired %s and is acknowledged %s", c, hv, v)
+		m.viol(comp, "renew-same-value", "ack-different-value", hv, "%s holds unexpired %s and is acknowledged %s", c, hv, v)
 	}
 	m.set(m.bound, c, kind, bind{v, now.Add(life)})
 	m.del(m.offered, c, kind)
@@ -241,6 +251,11 @@ func (m *mon) onNak(c, kind string) { m.del(m.offered, c, kind) }
 // released value must become obtainable again unless somebody else is entitled to it.
 func (m *mon) onRelease(c, kind string, own bool, now time.Time) {
 	b, ok := m.get(m.bound, c, kind)
+	if ok && !now.Before(b.exp) {
+		// the binding had already lapsed: it is the expiry, not this message, that frees it
+		m.lapse(c, kind, now)
+		ok = false
+	}
 	m.del(m.bound, c, kind)
 	m.del(m.offered, c, kind)
 	if ok && own && m.classify(b.v) == "" && m.holder(b.v, c, now) == "" && m.offeree(b.v, c, now) == "" {
@@ -277,16 +292,26 @@ func (m *mon) sweep(cut, now time.Time) {
 	}
 	sort.Slice(gone, func(i, j int) bool { return gone[i].c+gone[i].k < gone[j].c+gone[j].k })
 	for _, g := range gone {
-		b := m.bound[g.c][g.k]
-		m.del(m.bound, g.c, g.k)
-		if ov, again := m.offeredTo(g.c, g.k, now); again && ov == b.v {
-			continue // offered to the same client again after the binding lapsed: it is entitled to it
-		}
-		if m.classify(b.v) == "" && m.holder(b.v, g.c, now) == "" && m.offeree(b.v, g.c, now) == "" {
-			if _, dec := m.declined[b.v]; !dec {
-				m.oblig[b.v] = "expired"
-				m.count("bindings_expired", 1)
-			}
+		m.lapse(g.c, g.k, now)
+	}
+}
+
+// lapse removes c's lapsed binding. Its value must become obtainable again, unless somebody is
+// entitled to it now or the server has meanwhile offered it to the same client again (it is then
+// in the offered state, whose length the property does not bound).
+func (m *mon) lapse(c, k string, now time.Time) {
+	b, ok := m.get(m.bound, c, k)
+	if !ok {
+		return
+	}
+	m.del(m.bound, c, k)
+	if again, ok := m.get(m.offered, c, k); ok && again.v == b.v {
+		return
+	}
+	if m.classify(b.v) == "" && m.holder(b.v, c, now) == "" && m.offeree(b.v, c, now) == "" {
+		if _, dec := m.declined[b.v]; !dec {
+			m.oblig[b.v] = "expired"
+			m.count("bindings_expired", 1)
 		}
 	}
 }
